@@ -101,6 +101,7 @@ type machine struct {
 	shutCalled, shutReturned bool
 	shutStep                 int64
 	serveDone                bool
+	serveDoneCyc             map[int]bool // cycle -> its Serve call has returned
 	running                  map[int]bool // callbacks currently executing
 	qsubj                    []string     // active query subjects in order of appearance
 	qchans                   []chan *nats.Msg
@@ -113,7 +114,7 @@ type machine struct {
 }
 
 var allRIDs = []string{"svc.r.1", "svc.r.2", "svc.s.1", "svc.s.2", "svc.t.a.1", "svc.t.a.2", "svc.t.b.1", "svc.p.1", "svc.m.1", "svc.m.2", "svc.nosuch.1",
-	"svc.m.w.a.x", "svc.m.w.a.y.z", "svc.m.fixed", "svc.m.q.1"}
+	"svc.m.w.a.x", "svc.m.w.a.y.z", "svc.m.fixed", "svc.m.q.1", "svc.u.book.1", "svc.u.toy.1", "svc.m.a.b", "svc.m.c.b", "svc.r.1.deep"}
 
 func (m *machine) viol(prop, format string, a ...interface{}) {
 	m.mu.Lock()
@@ -150,7 +151,9 @@ func (m *machine) body(sb *Sub, r res.Resource, qe bool) {
 	if m.shutReturned && sb.Cycle == m.cycle {
 		m.out.Viol["C03"] = append(m.out.Viol["C03"], fmt.Sprintf("callback of submission %d (%s %s) started after Shutdown had returned", sb.ID, sb.Kind, sb.RID))
 	}
-	key := strconv.Itoa(sb.Cycle) + "/" + sb.Group
+	// one counter per group over the whole history: a callback of an earlier Serve cycle that is
+	// still executing excludes callbacks of its group in a later cycle as well
+	key := sb.Group
 	if !sb.Parallel {
 		m.occ[key]++
 		if m.occ[key] > 1 {
@@ -274,7 +277,15 @@ func (m *machine) build() {
 	// registered through the parent after mounting: default group, and a ${tag} group
 	s.Handle("m.fixed", opts()...)
 	s.Handle("m.q.$id", opts(res.Group("mm.${id}"))...)
+	// placeholder names where one is a prefix of an earlier one; a literal branch that dead-ends
+	// (r.1.deep next to r.$id); a three-placeholder pattern reached by backtracking out of the mount
+	s.Handle("u.$itemType.$item", opts(res.Group("it.${item}"))...)
+	s.Handle("r.1.deep", opts()...)
+	s.Handle("$a.$b.$c", opts(res.Group("abc.${a}"))...)
 	m.entries = []refmux.Entry{
+		{Pattern: "svc.u.$itemType.$item", Marker: 8, Group: "it.${item}"},
+		{Pattern: "svc.r.1.deep", Marker: 9},
+		{Pattern: "svc.$a.$b.$c", Marker: 10, Group: "abc.${a}"},
 		{Pattern: "svc.m.w.$g.>", Marker: 5, Group: "tg.${g}"},
 		{Pattern: "svc.m.fixed", Marker: 6},
 		{Pattern: "svc.m.q.$id", Marker: 7, Group: "mm.${id}"},
@@ -309,6 +320,10 @@ func (m *machine) serve() {
 	m.conns = append(m.conns, conn)
 	ret := make(chan struct{})
 	m.serveRet = ret
+	myCycle := m.cycle
+	if m.serveDoneCyc == nil {
+		m.serveDoneCyc = map[int]bool{}
+	}
 	m.mu.Unlock()
 	m.s.SetOnServe(func(*res.Service) {
 		m.mu.Lock()
@@ -349,7 +364,10 @@ func (m *machine) serve() {
 			m.viol("C03", "Serve returned error: %v", err)
 		}
 		m.mu.Lock()
-		m.serveDone = true
+		m.serveDoneCyc[myCycle] = true
+		if myCycle == m.cycle {
+			m.serveDone = true
+		}
 		m.mu.Unlock()
 	}()
 }
@@ -530,7 +548,9 @@ func (m *machine) exec(op Op) {
 		m.shutdown()
 	case "serve":
 		m.mu.Lock()
-		can := !m.started && (m.serveRet == nil || m.serveDone)
+		// a stopped service may be served again as soon as Shutdown has returned, even if the
+		// previous Serve call has not returned to its caller yet
+		can := !m.started && (m.serveRet == nil || m.serveDone || m.shutReturned)
 		m.mu.Unlock()
 		if can {
 			m.ctl.Do("serve", m.serve)
@@ -570,6 +590,13 @@ func (m *machine) exec(op Op) {
 					r, err := m.s.Resource(op.RID)
 					if err == nil {
 						r.Event("foreign", nil)
+					}
+				case "shutdown2":
+					m.mu.Lock()
+					called := m.shutCalled
+					m.mu.Unlock()
+					if called {
+						_ = m.s.Shutdown() // nil or errNotStarted
 					}
 				}
 			}()
@@ -691,6 +718,11 @@ func run(c Case) *Outcome {
 	}
 	if everServed && m.shutCalled && !m.serveDone {
 		m.out.Viol["C03"] = append(m.out.Viol["C03"], "Serve is blocked forever after Shutdown")
+	}
+	for k := 1; k < m.cycle; k++ {
+		if !m.serveDoneCyc[k] {
+			m.out.Viol["C03"] = append(m.out.Viol["C03"], fmt.Sprintf("the Serve call of cycle %d never returned although its Shutdown did", k))
+		}
 	}
 	if m.conn != nil && m.shutReturned && m.conn.Closed != 1 {
 		m.out.Viol["C03"] = append(m.out.Viol["C03"], fmt.Sprintf("connection closed %d times in the last cycle, expected exactly once", m.conn.Closed))
